@@ -181,6 +181,68 @@ def ufunc_harness(category, method, kinds, out_kind, extra_kw):
     return h
 
 
+UC = "mygrad.ufuncs._ufunc_creators"
+
+
+def ufunc_call_harness(clsname, nin, masked, out_kind):
+    """MyGrad<Unary|Binary|BinaryNoMask>Ufunc.__call__ (the public mg.<ufunc>(...) entry point):
+    out is a Tensor  -> exactly one out._in_place_op(cls._wrapped_op, *operands, op_kwargs=KW, constant=constant); returns out
+    otherwise        -> exactly one Tensor._op(cls._wrapped_op, *operands, op_kwargs=KW, constant=constant, out=out); returned
+    KW carries every option the entry point accepts (where= for the masked classes, dtype= always) as the caller's objects --
+    the SAME keywords on both branches, so that writing into a tensor target computes what writing into an array target computes."""
+
+    def h(ctx: Ctx):
+        cfg = Config()
+        cfg.builtins = default_builtins()
+        cfg.module_overrides["numpy"] = NP
+        rec = []
+        ret = Opaque("_op result")
+        cfg.summaries[f"{TB}:Tensor._op"] = lambda i_, a, k: (rec.append(("_op", a, k)), ret)[1]
+        cfg.summaries[f"{TB}:Tensor._in_place_op"] = lambda i_, a, k: (rec.append(("_in_place_op", a, k)), None)[1]
+        interp = Interp(ctx, cfg)
+        T = interp.global_lookup(interp.module(TB), "Tensor")
+        C = interp.global_lookup(interp.module(UC), clsname)
+        wrapped = Opaque("the wrapped Operation class")
+
+        class UfuncCls:
+            _wrapped_op = wrapped
+
+        operands = [Opaque(f"operand {i}") for i in range(nin)]
+        out = None if out_kind == "none" else (make_operand(T, "tensor-nc", "out", None) if out_kind == "tensor" else Opaque("ndarray out"))
+        where, dtype, constant = Opaque("where"), Opaque("dtype"), Opaque("constant")
+        kwargs = dict(dtype=dtype, constant=constant)
+        if masked:
+            kwargs["where"] = where
+        f = C.lookup(interp, "__call__")[0]
+        tag = f"C11.ufunc_call[{clsname},out={out_kind}]"
+        meta = dict(function=f"{UC}:{clsname}.__call__", out=out_kind)
+        try:
+            r = interp.call(f, [UfuncCls()] + operands + [out], kwargs)
+        except SymRaise as e:
+            ctx.oblige(f"{tag}.no_exception", False, raised=e.exc.cls_name(), **meta)
+            return
+        ok = len(rec) == 1
+        ctx.oblige(f"{tag}.exactly_one_operation_recorded", ok, **meta)
+        if not ok:
+            return
+        kind, a, k = rec[0]
+        if out_kind == "tensor":
+            ctx.oblige(f"{tag}.tensor_target_updated_in_place_and_returned", kind == "_in_place_op" and a[0] is out and r is out, **meta)
+            a = a[1:]
+        else:
+            ctx.oblige(f"{tag}.array_target_forwarded_as_out", kind == "_op" and r is ret and k.get("out", "missing") is out, **meta)
+            a = a[1:] if (a and a[0] is T) else a
+        ctx.oblige(f"{tag}.wrapped_op_and_operands_in_order", len(a) == nin + 1 and a[0] is wrapped and all(x is y for x, y in zip(a[1:], operands)), **meta)
+        kw = k.get("op_kwargs") or {}
+        exp = {"dtype": dtype}
+        if masked:
+            exp["where"] = where
+        ctx.oblige(f"{tag}.every_option_forwarded", isinstance(kw, dict) and set(kw) == set(exp) and all(kw[x] is exp[x] for x in exp), got=sorted(kw) if isinstance(kw, dict) else repr(kw), **meta)
+        ctx.oblige(f"{tag}.constant_forwarded", k.get("constant", "missing") is constant, **meta)
+
+    return h
+
+
 def function_harness(category, kinds, kw_kinds):
     def h(ctx: Ctx):
         cfg = Config()
@@ -229,7 +291,8 @@ def function_harness(category, kinds, kw_kinds):
 def obligations(tier="quick"):
     out = []
     info = {"functions": {}, "unsupported": [], "paths": 0}
-    for q in (f"{TB}:Tensor.__array_ufunc__", f"{TB}:Tensor.__array_function__", f"{TB}:_as_constant_array"):
+    for q in (f"{TB}:Tensor.__array_ufunc__", f"{TB}:Tensor.__array_function__", f"{TB}:_as_constant_array", "mygrad.ufuncs._ufunc_creators:MyGradUnaryUfunc.__call__",
+              "mygrad.ufuncs._ufunc_creators:MyGradBinaryUfunc.__call__", "mygrad.ufuncs._ufunc_creators:MyGradBinaryUfuncNoMask.__call__"):
         try:
             _m, node, _c = frontend.find(q)
             info["functions"][q] = frontend.source_hash(node)
@@ -248,6 +311,9 @@ def obligations(tier="quick"):
                             if extra and (out_kind not in ("absent", "tensor-nc") or n > 2):
                                 continue
                             hs.append((f"ufunc[{category},{method},{kinds},{out_kind},{extra}]", ufunc_harness(category, method, kinds, out_kind, extra)))
+    for clsname, nin, masked in (("MyGradUnaryUfunc", 1, True), ("MyGradBinaryUfunc", 2, True), ("MyGradBinaryUfuncNoMask", 2, False)):
+        for out_kind in ("none", "tensor", "array"):
+            hs.append((f"ufunc_call[{clsname},{out_kind}]", ufunc_call_harness(clsname, nin, masked, out_kind)))
     for category in ("diff", "nodiff", "none"):
         for n in range(0, 3):
             for kinds in itertools.product(KINDS, repeat=n):
